@@ -35,6 +35,17 @@ Theorem order_trans_lt : forall a b c : name, order a b < 0 -> order b c < 0 -> 
 Proof. exact NameOrder.order_trans_lt. Qed.
 Print Assumptions order_trans_lt.
 
+(* the operators ==, !=, <, <=, >=, > decide exactly the canonical order *)
+Theorem richcmp_spec : forall a b : name,
+  (name_eqb a b = true <-> canon_cmp a b = Eq) /\
+  name_ne a b = negb (name_eqb a b) /\
+  (name_lt a b = true <-> canon_cmp a b = Lt) /\
+  (name_le a b = true <-> canon_cmp a b <> Gt) /\
+  (name_ge a b = true <-> canon_cmp a b <> Lt) /\
+  (name_gt a b = true <-> canon_cmp a b = Gt).
+Proof. exact NameOrder.richcmp_spec. Qed.
+Print Assumptions richcmp_spec.
+
 (* ---- equality is ASCII-case-insensitive label equality; equal names hash equally ---- *)
 Theorem eq_iff_ci : forall a b : name, order a b = 0 <-> ci_equal a b.
 Proof. exact NameOrder.eq_iff_ci. Qed.
@@ -145,6 +156,15 @@ Theorem predecessor_before_relative : forall (n o : name) (prefix_ok : bool) (s 
 Proof. exact NameSucc.predecessor_before_rel. Qed.
 Print Assumptions predecessor_before_relative.
 
+(* the origin itself has no predecessor inside the zone: the documented result is the longest
+   name below the origin (never before the origin) *)
+Theorem predecessor_of_origin : forall (o : name) (prefix_ok : bool) (s : name),
+  Valid o -> is_absolute o = true ->
+  predecessor o o prefix_ok = Ok s ->
+  Valid s /\ is_subdomain s o = true /\ order o s <= 0 /\ exists pads, s = pads ++ o.
+Proof. exact NameSucc.predecessor_of_origin. Qed.
+Print Assumptions predecessor_of_origin.
+
 (* the fuel of the `while needed > 64` padding loop is sufficient for every name *)
 Theorem pad_fuel_sufficient : forall (n : name) acc,
   0 <= wire_length n -> snd (pad_labels 8 (255 - wire_length n) acc) <= 64.
@@ -157,7 +177,7 @@ Definition ex_n : name := [[90; 90]; [101; 120]; []].             (* ZZ.ex. *)
 Definition ex_z63 : name := [repeat 90 63; [101; 120]; []].       (* 63 x 'Z' . ex. *)
 
 Example ex_valid : Valid ex_n /\ Valid ex_o /\ Valid ex_z63.
-Proof. repeat split; apply validate_iff; reflexivity. Qed.
+Proof. repeat split; apply validate_iff; vm_compute; reflexivity. Qed.
 Example ex_sub : is_subdomain ex_n ex_o = true /\ is_absolute ex_n = true /\ name_eqb ex_n ex_o = false.
 Proof. repeat split; vm_compute; reflexivity. Qed.
 Example ex_succ : successor ex_n ex_o true = Ok ([0] :: ex_n) /\
